@@ -4,7 +4,7 @@
 REPO=${1:-/repo}
 OUT=$(mktemp -d)
 unset LCM_VERIF
-( cd "$REPO" && /venv/bin/python -m pytest -ra -q -p no:cacheprovider --timeout=900 \
+( cd "$REPO" && PYTHONPATH="$REPO/src" /venv/bin/python -m pytest -ra -q -p no:cacheprovider --timeout=900 \
     --continue-on-collection-errors --junitxml="$OUT/j.xml" >"$OUT/log" 2>&1 )
 python3 - "$OUT/j.xml" <<'PY'
 import json, sys, xml.etree.ElementTree as ET
